@@ -2,6 +2,10 @@
 """Writes seeded/<id>/meta.json from verify.log, notes.md and the (re)check logs."""
 import json, os, re, glob, sys
 ROOT = "/verif/seeded"
+# seeds whose description had been read, and a harness extended in response, before their first run against the checks
+# (so "first_run_detected_by" is not a "before" detection; see DESIGN 13.7)
+EXTENDED_BEFORE_FIRST_RUN = {"T01-a": "completion-listener subsets in the composition harness", "T16-a": "ZZ_S02e_NestedMaxDuration",
+                             "U09-a": "per-round hedge delay assertion in ZZ_S09b", "U08-a": "context-deadline source in ZZ_S08b"}
 summary = []
 for d in sorted(glob.glob(ROOT + "/*-*")):
     name = os.path.basename(d)
@@ -34,7 +38,7 @@ for d in sorted(glob.glob(ROOT + "/*-*")):
             "independent_confirmation": conf, "confirmed": confirmed,
             "ran": ["tools/seed_verify.sh %s %s  (scratch worktree: demo without patch, apply, build, demo with patch, full suite minus examples)" % (pid, name.split("-")[1]),
                     "tools/seed_recheck.sh %s <properties>  (git -C /repo apply; ./check <id> quick; git -C /repo reset --hard)" % name],
-            "first_run_detected_by": first, "checks": det, "detected_by": sorted(p for p, x in det.items() if x["detected"])}
+            "first_run_detected_by": first, "harness_extended_before_first_run": EXTENDED_BEFORE_FIRST_RUN.get(name), "checks": det, "detected_by": sorted(p for p, x in det.items() if x["detected"])}
     json.dump(meta, open(os.path.join(d, "meta.json"), "w"), indent=1)
     summary.append((name, confirmed, meta["detected_by"]))
 for s in summary:
